@@ -638,7 +638,8 @@ theorem babyjub_Point_Mul_ok_true (p : Int × Int) (s : Int) (q : Int × Int) :
     rw [req_of (babyjub_Point_Projective_ok_true q)]
     generalize hr : Go.forRangeRet _ _ _ _ = r
     obtain ⟨h1, -⟩ := forRangeRet_inv (fun _ : (Nat × Nat × Nat) × (Nat × Nat × Nat) => True) hr trivial (by
-        intro i x _ _ _
+        intro i x hi0 _ _
+        rw [req_of (decide_eq_true hi0)]
         split
         · rw [req_of (babyjub_PointProjective_Add_ok_true _ _ _), req_of (babyjub_PointProjective_Add_ok_true _ _ _)]
           exact ⟨rfl, trivial⟩
